@@ -3,7 +3,7 @@
    if every request sent within the horizon is answered after a delay in [0, T), the session is never closed --
    for every interval, every timeout (timeout <= interval included), every number of requests in flight. *)
 From Coq Require Import List NArith ZArith Bool Lia Sorting.Sorted.
-From AnyTLS Require Import Generated GeneratedFacts Pool Heartbeat HeartbeatProofs.
+From AnyTLS Require Import Generated FactsTimed Pool Heartbeat HeartbeatProofs.
 Import ListNotations.
 Open Scope Z_scope.
 
